@@ -498,7 +498,8 @@ func genSession(r *Rand, i int) Input {
 	}
 	// the node does not answer the first requests of the session, then it does (never the other
 	// way round: a service that remembers a domain it did obtain is not what is looked for here)
-	if r.Chance(1, 8) {
+	nodeDown := r.Chance(1, 8)
+	if nodeDown {
 		shape += "+node-down-at-first"
 		m := r.Range(1, len(steps)-1)
 		for j := 0; j < m; j++ {
@@ -511,7 +512,8 @@ func genSession(r *Rand, i int) Input {
 	}
 	in.Req, in.Then = steps[0], steps[1:]
 	in.Tags = []string{forkStyle, poolStyle, shape}
-	if r.Chance(1, 6) {
+	// requests made at once have no order: no node failures among them (see above)
+	if r.Chance(1, 6) && !nodeDown {
 		in.Concurrent = true
 	}
 	return in
